@@ -29,6 +29,8 @@ class Resolver:
         self._attr_types_cache: Dict[str, Dict[str, Set[str]]] = {}
         self._env_cache: Dict[str, Dict[str, Set[str]]] = {}
         self.unresolved: List[Tuple[str, str]] = []
+        # (function, local name) typed by isinstance tests only: the candidates are a lower bound, not the full set
+        self._partial: Set[Tuple[str, str]] = set()
         # explicit reflection table: (function qualname, textual callee) -> resolver
         self.reflection = {
             # getattr(self, "do_%s") dispatch
@@ -163,6 +165,11 @@ class Resolver:
             if r in self.m.funcs:
                 ret = getattr(self.m.funcs[r].node, "returns", None)
                 return self.ann_types(self.m.funcs[r].module, ret, self.m.funcs[r].cls)
+            # TABLE.get(k): values of a dict-literal table of classes / functions
+            if isinstance(e.func, ast.Attribute) and e.func.attr == "get":
+                tv = self.table_values(f, e.func.value)
+                if tv:
+                    return tv
             # self.__class__(...) / cls(...)
             if isinstance(e.func, ast.Attribute) and e.func.attr == "__class__":
                 return self._expr_types_shallow(f, e.func.value, env)
@@ -190,6 +197,8 @@ class Resolver:
             return outs
         if isinstance(e, ast.IfExp):
             return self._expr_types_shallow(f, e.body, env) | self._expr_types_shallow(f, e.orelse, env)
+        if isinstance(e, ast.Subscript):
+            return self.table_values(f, e.value)
         return set()
 
     def local_env(self, f: FuncInfo) -> Dict[str, Set[str]]:
@@ -225,11 +234,118 @@ class Resolver:
                         for e in elts:
                             r = self.m.resolve_expr(f.module, e, f.cls)
                             if r in self.m.classes:
+                                if n.args[0].id not in env:
+                                    self._partial.add((f.qualname, n.args[0].id))
                                 env.setdefault(n.args[0].id, set()).add(r)
         return env
 
     def expr_types(self, f: FuncInfo, e: ast.expr) -> Set[str]:
         return self._expr_types_shallow(f, e, self.local_env(f))
+
+
+    # ------------------------------------------------- values that hold functions / classes
+    def func_fields(self) -> Dict[str, List[FuncInfo]]:
+        """Field-based function pointers: attribute name -> methods/functions stored into `<obj>.<attr> = <reference>`
+        anywhere in the package (e.g. ccitt: self._accept = self._parse_mode)."""
+        if hasattr(self, "_func_fields"):
+            return self._func_fields  # type: ignore[has-type]
+        out: Dict[str, List[FuncInfo]] = {}
+        self._func_fields = out
+        for f in self.m.funcs.values():
+            if isinstance(f.node, ast.Lambda):
+                continue
+            for n in walk_no_nested(f.node):
+                if isinstance(n, ast.Assign) and len(n.targets) == 1 and isinstance(n.targets[0], ast.Attribute) and isinstance(n.value, (ast.Attribute, ast.Name)):
+                    for tf in self._reference_targets(f, n.value):
+                        lst = out.setdefault(n.targets[0].attr, [])
+                        if tf not in lst:
+                            lst.append(tf)
+        return out
+
+    def _reference_targets(self, f: FuncInfo, e: ast.expr) -> List[FuncInfo]:
+        """Functions denoted by a reference expression (not a call): self.m, Class.m, func."""
+        if isinstance(e, ast.Attribute):
+            outs: List[FuncInfo] = []
+            for t in self._expr_types_shallow(f, e.value, self.local_env(f)):
+                c = t[5:] if t.startswith("type:") else t
+                if c in self.m.classes:
+                    for x in self._method_targets(c, e.attr):
+                        if not x.is_property and x not in outs:
+                            outs.append(x)
+            if outs:
+                return outs
+        r = self.m.resolve_expr(f.module, e, f.cls)
+        if r in self.m.funcs:
+            return [self.m.funcs[r]]
+        return []
+
+    def class_alias(self, cls_qn: str, name: str) -> Optional[FuncInfo]:
+        """Class-body alias `a = b = method` (arcfour: encrypt = decrypt = process)."""
+        for k in self.m.mro(cls_qn):
+            ci = self.m.classes.get(k)
+            if not ci:
+                continue
+            for st in ci.node.body:
+                if isinstance(st, ast.Assign) and isinstance(st.value, ast.Name) and st.value.id in ci.methods:
+                    if any(isinstance(t, ast.Name) and t.id == name for t in st.targets):
+                        return ci.methods[st.value.id]
+        return None
+
+    def module_var_types(self, dotted_name: str) -> Set[str]:
+        """Classes of a module-level variable bound to a constructor call (psparser: PSLiteralTable = PSSymbolTable(PSLiteral))."""
+        mod, _, var = dotted_name.rpartition(".")
+        mi = self.m.modules.get(mod)
+        if mi is None or var not in mi.assigns:
+            return set()
+        v = mi.assigns[var]
+        if isinstance(v, ast.Call):
+            r = self.m.resolve_expr(mi, v.func, None)
+            if r in self.m.classes:
+                return {r}
+        return set()
+
+    def dotted_method(self, r: Optional[str]) -> List[FuncInfo]:
+        """`module.VAR.method` where VAR is a module-level instance."""
+        if not r or "." not in r:
+            return []
+        base, _, name = r.rpartition(".")
+        outs: List[FuncInfo] = []
+        for c in self.module_var_types(base):
+            for x in self._method_targets(c, name):
+                if x not in outs:
+                    outs.append(x)
+        return outs
+
+    def table_values(self, f: FuncInfo, e: ast.expr) -> Set[str]:
+        """Classes/functions stored as values of a dict-literal table denoted by e (class attribute via self/cls/Class, or module
+        variable): PDFDocument.security_handler_registry."""
+        tbl: Optional[ast.AST] = None
+        owner_mod = f.module
+        owner_cls: Optional[ClassInfo] = f.cls
+        if isinstance(e, ast.Attribute) and isinstance(e.value, ast.Name) and e.value.id in ("self", "cls") and f.cls is not None:
+            for k in self.m.mro(f.cls.qualname):
+                ci = self.m.classes.get(k)
+                if ci and e.attr in ci.attrs:
+                    tbl, owner_mod, owner_cls = ci.attrs[e.attr], ci.module, ci
+                    break
+        else:
+            r = self.m.resolve_expr(f.module, e, f.cls)
+            if r:
+                base, _, var = r.rpartition(".")
+                if base in self.m.classes and var in self.m.classes[base].attrs:
+                    ci = self.m.classes[base]
+                    tbl, owner_mod, owner_cls = ci.attrs[var], ci.module, ci
+                elif base in self.m.modules and var in self.m.modules[base].assigns:
+                    tbl, owner_mod, owner_cls = self.m.modules[base].assigns[var], self.m.modules[base], None
+        out: Set[str] = set()
+        if isinstance(tbl, ast.Dict):
+            for v in tbl.values:
+                r = self.m.resolve_expr(owner_mod, v, owner_cls) if v is not None else None
+                if r in self.m.classes:
+                    out.add("type:" + r)
+                elif r in self.m.funcs:
+                    out.add("func:" + r)
+        return out
 
     # ------------------------------------------------------------- resolve
     def _method_targets(self, cls_qn: str, name: str, exact: bool = False) -> List[FuncInfo]:
@@ -259,7 +375,27 @@ class Resolver:
             if r in self.m.classes:
                 init = self.m.lookup_method(r, "__init__")
                 return ([init] if init else []), "resolved"
+            dm = self.dotted_method(r)
+            if dm:
+                return dm, "resolved"
+            # function-local import: `from pdfminer._saslprep import saslprep` inside the function body
+            pp: Optional[FuncInfo] = f
+            while pp is not None and not isinstance(pp.node, ast.Lambda):
+                for n in walk_no_nested(pp.node):
+                    if isinstance(n, ast.ImportFrom) and n.module and any((a.asname or a.name) == fn.id for a in n.names):
+                        orig = next(a.name for a in n.names if (a.asname or a.name) == fn.id)
+                        base = n.module if n.level == 0 else ".".join(f.module.name.split(".")[: -n.level] + [n.module])
+                        q = f"{base}.{orig}"
+                        if q in self.m.funcs:
+                            return [self.m.funcs[q]], "resolved"
+                        if q in self.m.classes:
+                            init = self.m.lookup_method(q, "__init__")
+                            return ([init] if init else []), "resolved"
+                pp = pp.parent
             ts = env.get(fn.id, set())
+            fvals = [self.m.funcs[t[5:]] for t in ts if t.startswith("func:") and t[5:] in self.m.funcs]
+            if fvals:
+                return fvals, "resolved"
             ctor = [t[5:] for t in ts if t.startswith("type:")]
             if ctor:
                 outs = []
@@ -326,10 +462,25 @@ class Resolver:
                 for x in targets:
                     if x not in outs:
                         outs.append(x)
+            if outs and isinstance(recv, ast.Name) and (f.qualname, recv.id) in self._partial and name not in CONTAINER_METHODS:
+                # the receiver is only known through isinstance tests: other classes with such a method are possible too
+                for ci in self.m.classes.values():
+                    if name in ci.methods and ci.methods[name] not in outs:
+                        outs.append(ci.methods[name])
+                return outs, "fanout"
             if outs:
                 return outs, "resolved"
             if rts and not outs:
-                # typed receiver without such a method: attribute holding a callable
+                # typed receiver without such a method: class-body alias, or attribute holding a callable
+                for t in rts:
+                    c = t[5:] if t.startswith("type:") else t
+                    al = self.class_alias(c, name) if c in self.m.classes else None
+                    if al is not None and al not in outs:
+                        outs.append(al)
+                if outs:
+                    return outs, "resolved"
+                if name in self.func_fields() and name not in self.attr_reflection:
+                    return list(self.func_fields()[name]), "resolved"
                 if name in self.attr_reflection:
                     c0 = next(iter(rts))
                     c0 = c0[5:] if c0.startswith("type:") else c0
@@ -360,6 +511,91 @@ class Resolver:
             return [], "unresolved"
         return [], "unresolved"
 
+    def getattr_targets(self, f: FuncInfo, call: ast.Call) -> List[FuncInfo]:
+        """getattr(self, "<prefix>%s" % name[, default]) -> every method of the class (and subclasses) with that prefix."""
+        if not (isinstance(call.func, ast.Name) and call.func.id == "getattr" and len(call.args) >= 2 and f.cls is not None):
+            return []
+        if not (isinstance(call.args[0], ast.Name) and call.args[0].id == "self"):
+            return []
+        a = call.args[1]
+        prefix = None
+        if isinstance(a, ast.BinOp) and isinstance(a.op, ast.Mod) and isinstance(a.left, ast.Constant) and isinstance(a.left.value, str) and "%" in a.left.value:
+            prefix = a.left.value.split("%")[0]
+        elif isinstance(a, ast.JoinedStr) and a.values and isinstance(a.values[0], ast.Constant):
+            prefix = str(a.values[0].value)
+        if not prefix:
+            return []
+        cands = self._methods_with_prefix(f.cls.qualname, prefix)
+        # the formatted name ranges over a module-level literal table: only those names are possible
+        var = a.right if isinstance(a, ast.BinOp) and isinstance(a.right, ast.Name) else None
+        if var is not None:
+            for lp in walk_no_nested(f.node):
+                if isinstance(lp, ast.For) and isinstance(lp.iter, ast.Name) and lp.iter.id in f.module.assigns:
+                    tg = lp.target.elts if isinstance(lp.target, (ast.Tuple, ast.List)) else [lp.target]
+                    pos = [i for i, t in enumerate(tg) if isinstance(t, ast.Name) and t.id == var.id]
+                    if not pos:
+                        continue
+                    try:
+                        table = ast.literal_eval(f.module.assigns[lp.iter.id])
+                    except (ValueError, SyntaxError):
+                        continue
+                    names = {prefix + str(row[pos[0]] if isinstance(row, (tuple, list)) else row) for row in table}
+                    return [x for x in cands if x.name in names]
+        return cands
+
+    def address_taken(self, f: FuncInfo) -> List[Tuple[ast.AST, List[FuncInfo]]]:
+        """References to package functions/methods that are not in call position (callbacks, tables, sort keys, stored
+        function pointers): the function may be called by whoever receives the value - an edge from f over-approximates that."""
+        out: List[Tuple[ast.AST, List[FuncInfo]]] = []
+        if isinstance(f.node, ast.Lambda):
+            return out
+        call_funcs = {id(c.func) for c in walk_no_nested(f.node) if isinstance(c, ast.Call)}
+        # a reference stored into an attribute is called through that attribute: those call sites carry the edge (func_fields)
+        call_funcs |= {id(n.value) for n in walk_no_nested(f.node) if isinstance(n, ast.Assign) and len(n.targets) == 1 and isinstance(n.targets[0], ast.Attribute)}
+        inner_of_attr = {id(n.value) for n in walk_no_nested(f.node) if isinstance(n, ast.Attribute)}
+        for n in walk_no_nested(f.node):
+            if id(n) in call_funcs or not isinstance(n, (ast.Attribute, ast.Name)) or not isinstance(getattr(n, "ctx", None), ast.Load):
+                continue
+            if id(n) in inner_of_attr:
+                continue
+            if isinstance(n, ast.Name):
+                r = self.m.resolve_expr(f.module, n, f.cls)
+                p: Optional[FuncInfo] = f
+                tg: List[FuncInfo] = []
+                while p is not None:
+                    q = f"{p.qualname}.{n.id}"
+                    if q in self.m.funcs:
+                        tg = [self.m.funcs[q]]
+                        break
+                    p = p.parent
+                if not tg and r in self.m.funcs:
+                    tg = [self.m.funcs[r]]
+                if tg:
+                    out.append((n, tg))
+            else:
+                if not (isinstance(n.value, ast.Name) and n.value.id in ("self", "cls")) and self.m.resolve_expr(f.module, n.value, f.cls) not in self.m.classes:
+                    continue
+                tg = [x for x in self._reference_targets(f, n) if not x.is_property]
+                if tg:
+                    out.append((n, tg))
+        return out
+
+    PROTOCOL_DUNDERS = ("__iter__", "__next__", "__len__", "__contains__", "__getitem__", "__setitem__", "__delitem__", "__enter__", "__exit__", "__lt__", "__le__", "__gt__", "__ge__", "__eq__", "__ne__", "__hash__", "__bool__", "__call__", "__add__", "__del__")
+
+    def protocol_methods(self, cls_qn: str) -> List[FuncInfo]:
+        """Implicitly invoked methods of a class (rapid type analysis: they are taken to be reachable wherever the class is instantiated
+        or passed around as a value)."""
+        outs: List[FuncInfo] = []
+        for c in [cls_qn] + (self.m.subclasses(cls_qn, strict=True) if self.fanout else []):
+            for k in self.m.mro(c):
+                ci = self.m.classes.get(k)
+                if not ci:
+                    continue
+                for d in self.PROTOCOL_DUNDERS:
+                    if d in ci.methods and ci.methods[d] not in outs:
+                        outs.append(ci.methods[d])
+        return outs
+
     def calls_in(self, f: FuncInfo, include_nested_lambdas: bool = True) -> List[ast.Call]:
         return [n for n in walk_no_nested(f.node) if isinstance(n, ast.Call)]
 
@@ -388,6 +624,32 @@ class CallGraph:
                                 fake = ast.Call(func=n, args=[], keywords=[])
                                 ast.copy_location(fake, n)
                                 out.append((fake, model.overrides(c, n.attr) if fanout else [pm], "resolved"))
+            # reflection through getattr(self, "<prefix>%s" % x)
+            for c in self.r.calls_in(f):
+                gt = self.r.getattr_targets(f, c)
+                if gt:
+                    out.append((c, gt, "resolved"))
+                    self.stats["reflection"] = self.stats.get("reflection", 0) + 1
+            # address-taken functions
+            for (node, tg) in self.r.address_taken(f):
+                fake = ast.Call(func=node, args=[], keywords=[])
+                ast.copy_location(fake, node)
+                out.append((fake, tg, "resolved"))
+                self.stats["address_taken"] = self.stats.get("address_taken", 0) + 1
+            # implicitly invoked methods of classes instantiated (or handed around as values) here
+            if not isinstance(f.node, ast.Lambda):
+                seen_cls: Set[str] = set()
+                for n in walk_no_nested(f.node):
+                    if isinstance(n, (ast.Name, ast.Attribute)) and isinstance(getattr(n, "ctx", None), ast.Load):
+                        r = model.resolve_expr(f.module, n, f.cls)
+                        if r in model.classes and r not in seen_cls:
+                            seen_cls.add(r)
+                            pm = self.r.protocol_methods(r)
+                            if pm:
+                                fake = ast.Call(func=n, args=[], keywords=[])
+                                ast.copy_location(fake, n)
+                                out.append((fake, pm, "resolved"))
+                                self.stats["protocol"] = self.stats.get("protocol", 0) + 1
             self.edges[f.qualname] = out
 
     def callees(self, qn: str) -> Set[str]:
